@@ -1,4 +1,5 @@
-"""legacy s3transfer.S3Transfer / MultipartUploader / MultipartDownloader over the fakes (serial pool)"""
+"""legacy s3transfer.S3Transfer / MultipartUploader / MultipartDownloader over the fakes (lazy pool model: the
+order in which the pool's tasks run and complete is decided by symbolic choices)"""
 import concurrent.futures as cf
 
 import s3transfer as S
@@ -10,28 +11,185 @@ S.random_file_extension = lambda num_digits=8: 'TMPSUFFX'
 TEMP = H.DEST + '.TMPSUFFX'
 
 
+class Stuck(BaseException):
+    """the chosen schedule cannot be continued with nested (LIFO) runs - the run is pruned, never judged"""
+
+
+class Lazy:
+    """state of the lazy pool model for one run: symbolic choices decide which pending task runs next"""
+    choices = []
+    k = 0
+    pools = []
+    order = 0
+
+    @classmethod
+    def reset(cls, choices=()):
+        cls.choices = list(choices)
+        cls.k = 0
+        cls.pools = []
+        cls.order = 0
+
+    @classmethod
+    def choose(cls, n):
+        if n <= 1 or cls.k >= len(cls.choices):
+            return 0
+        c = cls.choices[cls.k]
+        cls.k += 1
+        for i in range(n - 1):
+            if c == i:
+                return i
+        return n - 1
+
+    @classmethod
+    def pending(cls, pool=None):
+        return [f for p in cls.pools if pool is None or p is pool for f in p.futures if not f.started]
+
+    @classmethod
+    def run_some(cls, pool=None):
+        """start one pending task (of `pool`, or of any pool) and run it to completion on top of the current stack;
+        False if there is none"""
+        pend = cls.pending(pool)
+        if not pend:
+            return False
+        f = pend[cls.choose(len(pend))]
+        f.started = True
+        try:
+            r = f.thunk()
+        except Exception as e:  # noqa
+            cls.order += 1
+            f.order = cls.order
+            f.set_exception(e)
+        else:
+            cls.order += 1
+            f.order = cls.order
+            f.set_result(r)
+        return True
+
+
+class LazyFuture(cf.Future):
+    def __init__(self, thunk, pool=None):
+        cf.Future.__init__(self)
+        self.pool = pool
+        self.thunk = thunk
+        self.started = False
+        self.order = None
+
+    def _force(self):
+        while not self.done():
+            # a waiter for a task of some pool lets THAT pool's pending tasks run (any of them, by choice)
+            if self.started or not Lazy.run_some(self.pool):
+                raise Stuck()     # waits for a task that is suspended further up this stack
+
+    def result(self, timeout=None):
+        self._force()
+        return cf.Future.result(self, 0)
+
+    def exception(self, timeout=None):
+        self._force()
+        return cf.Future.exception(self, 0)
+
+
 class SerialPool:
-    """stand-in for ThreadPoolExecutor in the legacy classes (constructor parameter executor_cls): runs inline"""
+    """stand-in for ThreadPoolExecutor in the legacy classes (constructor parameter executor_cls).  LAZY model: a
+    submitted task does not run until somebody waits (result(), map iteration, wait(), as_completed(), leaving the
+    with-block); then a pending task picked by the next symbolic choice runs to completion (nested on the waiter's
+    stack).  With no choices left the order is submission order - the old serial behaviour.  Every order in which a
+    real pool can COMPLETE its tasks one after the other is reachable; overlapping executions are reachable as far as
+    nesting expresses them (a task blocked on the model queue runs other tasks meanwhile)."""
 
     def __init__(self, max_workers=None):
-        pass
+        self.futures = []
+        Lazy.pools.append(self)
 
     def __enter__(self):
         return self
 
     def __exit__(self, *a):
+        self.shutdown()
         return False
 
+    def shutdown(self, wait=True, **kw):
+        while Lazy.run_some(self):
+            pass
+        if any(not f.done() for f in self.futures):
+            raise Stuck()
+
     def map(self, fn, *its):
-        return [fn(*a) for a in zip(*its)]
+        fs = [self.submit(fn, *a) for a in zip(*its)]
+
+        def results():
+            for f in fs:
+                yield f.result()
+        return results()
 
     def submit(self, fn, *a, **k):
-        f = cf.Future()
-        try:
-            f.set_result(fn(*a, **k))
-        except Exception as e:  # noqa
-            f.set_exception(e)
+        f = LazyFuture(lambda: fn(*a, **k), self)
+        self.futures.append(f)
         return f
+
+
+def lazy_wait(fs, timeout=None, return_when='ALL_COMPLETED'):
+    fs = list(fs)
+    while True:
+        done = [f for f in fs if f.done()]
+        if return_when == cf.FIRST_COMPLETED and done:
+            break
+        if return_when == cf.FIRST_EXCEPTION and any(cf.Future.exception(f, 0) is not None for f in done):
+            break
+        if len(done) == len(fs):
+            break
+        if not Lazy.run_some():
+            raise Stuck()
+    return cf._base.DoneAndNotDoneFutures(set(done), set(fs) - set(done))
+
+
+def lazy_as_completed(fs, timeout=None):
+    fs = list(fs)
+    seen = []
+    while len(seen) < len(fs):
+        ready = sorted((f for f in fs if f.done() and f not in seen), key=lambda f: f.order)
+        if not ready:
+            if not Lazy.run_some():
+                raise Stuck()
+            continue
+        for f in ready:
+            seen.append(f)
+            yield f
+
+
+class ModelShutdownQueue(S.ShutdownQueue):
+    """the real ShutdownQueue of the legacy downloader; only BLOCKING is modelled: an empty get / a full put lets
+    another pending task run (nested) instead of sleeping"""
+
+    def put(self, item):
+        while self.maxsize > 0 and self.qsize() >= self.maxsize and not getattr(self, '_shutdown', False):
+            if not Lazy.run_some():
+                raise Stuck()
+        return S.ShutdownQueue.put(self, item)
+
+    def get(self, *a, **k):
+        while self.empty():
+            if not Lazy.run_some():
+                raise Stuck()
+        return S.ShutdownQueue.get(self, *a, **k)
+
+
+class _CF:
+    """what s3transfer/__init__.py uses of concurrent.futures, over the lazy pool"""
+    ThreadPoolExecutor = SerialPool
+    wait = staticmethod(lazy_wait)
+    as_completed = staticmethod(lazy_as_completed)
+    FIRST_COMPLETED = cf.FIRST_COMPLETED
+    FIRST_EXCEPTION = cf.FIRST_EXCEPTION
+    ALL_COMPLETED = cf.ALL_COMPLETED
+    Future = cf.Future
+
+
+class _Concurrent:
+    futures = _CF
+
+
+S.concurrent = _Concurrent
 
 
 _REAL_MD = S.MultipartDownloader
@@ -41,6 +199,8 @@ _REAL_MU = S.MultipartUploader
 class SerialMultipartDownloader(_REAL_MD):
     def __init__(self, client, config, osutil, executor_cls=SerialPool):
         _REAL_MD.__init__(self, client, config, osutil, executor_cls)
+        if hasattr(self, '_ioqueue'):
+            self._ioqueue = ModelShutdownQueue(getattr(config, 'max_io_queue', 0))
 
 
 class SerialMultipartUploader(_REAL_MU):
@@ -86,7 +246,8 @@ def legacy_os(fs, size, env):
 
 
 def download(size, thr, chunk, fault_at=-1, phase=0, prev=False, stream_faults=(), attempts=2, extra_args=None,
-             short_reads=False, nd=()):
+             short_reads=False, nd=(), choices=()):
+    Lazy.reset(choices)
     c = H.Ctx()
     env = c.env = F.Env(fault_at, phase, F.Nondet(nd))
     s3 = c.s3 = F.FakeS3(env, size=size, stream_faults=stream_faults, short_reads=short_reads)
@@ -98,12 +259,15 @@ def download(size, thr, chunk, fault_at=-1, phase=0, prev=False, stream_faults=(
     try:
         t.download_file('bkt', 'key', H.DEST, extra_args=extra_args, callback=c.progress.append)
         c.outcome = ('ok', None)
+    except Stuck:
+        c.outcome = ('stuck', None)
     except Exception as e:  # noqa
         c.outcome = ('exc', e)
     return c
 
 
-def upload(size, thr, chunk, fault_at=-1, phase=0, extra_args=None):
+def upload(size, thr, chunk, fault_at=-1, phase=0, extra_args=None, choices=()):
+    Lazy.reset(choices)
     c = H.Ctx()
     env = c.env = F.Env(fault_at, phase)
     s3 = c.s3 = F.FakeS3(env)
@@ -115,6 +279,8 @@ def upload(size, thr, chunk, fault_at=-1, phase=0, extra_args=None):
     try:
         t.upload_file('/s/source', 'bkt', 'key', callback=c.progress.append, extra_args=extra_args)
         c.outcome = ('ok', None)
+    except Stuck:
+        c.outcome = ('stuck', None)
     except Exception as e:  # noqa
         c.outcome = ('exc', e)
     return c
